@@ -222,7 +222,8 @@ func TestC02_StructuralMutants(t *testing.T) {
 }
 
 // hostile size/offset values
-var hostileSizes = []uint64{0, 1, 2, 3, 5, 6, 7, 0xfc, 0xfd, 0xffff, 0x10000, 0x7fffffff, 0x80000000, 0xfffffffe, 0xffffffff}
+// (the values just below 2^32 make 32-bit sums of table and data size wrap to a small, plausible number)
+var hostileSizes = []uint64{0, 1, 2, 3, 5, 6, 7, 0xfc, 0xfd, 0xffff, 0x10000, 0x7fffffff, 0x80000000, 0xfffffff0, 0xfffffff8, 0xfffffffa, 0xfffffffc, 0xfffffffd, 0xfffffffe, 0xffffffff}
 
 func drawSize(rt *rapid.T, label string, honest int) uint64 {
 	switch rapid.IntRange(0, 4).Draw(rt, label+"/class") {
@@ -237,82 +238,91 @@ func drawSize(rt *rapid.T, label string, honest int) uint64 {
 	}
 }
 
+// drawLyingContainer builds a list or message (small or big form) by hand: element data that is a
+// concatenation of valid values or garbage, a table whose entries may be non-monotonic, beyond the data,
+// unsorted or duplicated, and declared data/table sizes that may lie.
+func drawLyingContainer(rt *rapid.T) (in []byte, desc string) {
+	isMsg := rapid.Bool().Draw(rt, "message")
+	big := rapid.Bool().Draw(rt, "big")
+	// data: concatenation of valid values or garbage
+	var data []byte
+	var ends []int
+	s := gen.RapidSrc{T: rt}
+	cnt := rapid.IntRange(0, 6).Draw(rt, "count")
+	for i := 0; i < cnt; i++ {
+		if rapid.IntRange(0, 4).Draw(rt, "garbage") == 0 {
+			data = append(data, rapid.SliceOfN(rapid.Byte(), 0, 6).Draw(rt, "garbagebytes")...)
+		} else {
+			n, _ := gen.Tree(s, gen.Limits{MaxDepth: 2, MaxNodes: 5})
+			data = refcodec.Encode(data, n)
+		}
+		ends = append(ends, len(data))
+	}
+	// table entries
+	var table []byte
+	nent := cnt + rapid.IntRange(-1, 2).Draw(rt, "extraentries")
+	if nent < 0 {
+		nent = 0
+	}
+	prevTag := 0
+	for i := 0; i < nent; i++ {
+		var off uint64
+		switch rapid.IntRange(0, 5).Draw(rt, "offclass") {
+		case 0, 1:
+			if i < len(ends) {
+				off = uint64(ends[i])
+			}
+		case 2:
+			off = uint64(rapid.IntRange(0, len(data)+3).Draw(rt, "offany"))
+		case 3:
+			off = hostileSizes[rapid.IntRange(0, len(hostileSizes)-1).Draw(rt, "offhostile")]
+		case 4:
+			if i > 0 && i-1 < len(ends) {
+				off = uint64(ends[i-1]) // duplicate / non-monotonic
+			}
+		default:
+			off = uint64(len(data)) + uint64(rapid.IntRange(0, 2).Draw(rt, "offbeyond"))
+		}
+		if isMsg {
+			tag := prevTag + rapid.IntRange(-1, 3).Draw(rt, "tagstep")
+			if tag < 0 {
+				tag = 0
+			}
+			prevTag = tag
+			if big {
+				table = append(table, byte(tag>>8), byte(tag), byte(off>>24), byte(off>>16), byte(off>>8), byte(off))
+			} else {
+				table = append(table, byte(tag), byte(off>>8), byte(off))
+			}
+		} else if big {
+			table = append(table, byte(off>>24), byte(off>>16), byte(off>>8), byte(off))
+		} else {
+			table = append(table, byte(off>>8), byte(off))
+		}
+	}
+	if rapid.IntRange(0, 5).Draw(rt, "oddtable") == 0 {
+		table = append(table, rapid.SliceOfN(rapid.Byte(), 1, 2).Draw(rt, "oddbytes")...)
+	}
+	typ := byte(refcodec.TList)
+	switch {
+	case isMsg && big:
+		typ = refcodec.TBigMessage
+	case isMsg:
+		typ = refcodec.TMessage
+	case big:
+		typ = refcodec.TBigList
+	}
+	ds := drawSize(rt, "datasize", len(data))
+	ts := drawSize(rt, "tablesize", len(table))
+	in = refcodec.RawContainer(typ, data, table, ds, ts)
+	desc = fmt.Sprintf("lying table: msg=%v big=%v declared data=%d table=%d actual data=%d table=%d", isMsg, big, ds, ts, len(data), len(table))
+	return in, desc
+}
+
 func TestC02_LyingTables(t *testing.T) {
 	ev.Rule(c02, "table corruptions built directly: lists and messages (small and big form) whose tables are non-monotonic, point beyond the data, are unsorted or have duplicate tags, whose table size is not a multiple of the entry size, whose declared data/table sizes lie (off by one, huge, larger than the input), with valid or garbage element data; non-trivial = all; distinct by input hash")
 	ev.CheckScaled(t, c02, 40, 1, func(rt *rapid.T) {
-		isMsg := rapid.Bool().Draw(rt, "message")
-		big := rapid.Bool().Draw(rt, "big")
-		// data: concatenation of valid values or garbage
-		var data []byte
-		var ends []int
-		s := gen.RapidSrc{T: rt}
-		cnt := rapid.IntRange(0, 6).Draw(rt, "count")
-		for i := 0; i < cnt; i++ {
-			if rapid.IntRange(0, 4).Draw(rt, "garbage") == 0 {
-				data = append(data, rapid.SliceOfN(rapid.Byte(), 0, 6).Draw(rt, "garbagebytes")...)
-			} else {
-				n, _ := gen.Tree(s, gen.Limits{MaxDepth: 2, MaxNodes: 5})
-				data = refcodec.Encode(data, n)
-			}
-			ends = append(ends, len(data))
-		}
-		// table entries
-		var table []byte
-		nent := cnt + rapid.IntRange(-1, 2).Draw(rt, "extraentries")
-		if nent < 0 {
-			nent = 0
-		}
-		prevTag := 0
-		for i := 0; i < nent; i++ {
-			var off uint64
-			switch rapid.IntRange(0, 5).Draw(rt, "offclass") {
-			case 0, 1:
-				if i < len(ends) {
-					off = uint64(ends[i])
-				}
-			case 2:
-				off = uint64(rapid.IntRange(0, len(data)+3).Draw(rt, "offany"))
-			case 3:
-				off = hostileSizes[rapid.IntRange(0, len(hostileSizes)-1).Draw(rt, "offhostile")]
-			case 4:
-				if i > 0 && i-1 < len(ends) {
-					off = uint64(ends[i-1]) // duplicate / non-monotonic
-				}
-			default:
-				off = uint64(len(data)) + uint64(rapid.IntRange(0, 2).Draw(rt, "offbeyond"))
-			}
-			if isMsg {
-				tag := prevTag + rapid.IntRange(-1, 3).Draw(rt, "tagstep")
-				if tag < 0 {
-					tag = 0
-				}
-				prevTag = tag
-				if big {
-					table = append(table, byte(tag>>8), byte(tag), byte(off>>24), byte(off>>16), byte(off>>8), byte(off))
-				} else {
-					table = append(table, byte(tag), byte(off>>8), byte(off))
-				}
-			} else if big {
-				table = append(table, byte(off>>24), byte(off>>16), byte(off>>8), byte(off))
-			} else {
-				table = append(table, byte(off>>8), byte(off))
-			}
-		}
-		if rapid.IntRange(0, 5).Draw(rt, "oddtable") == 0 {
-			table = append(table, rapid.SliceOfN(rapid.Byte(), 1, 2).Draw(rt, "oddbytes")...)
-		}
-		typ := byte(refcodec.TList)
-		switch {
-		case isMsg && big:
-			typ = refcodec.TBigMessage
-		case isMsg:
-			typ = refcodec.TMessage
-		case big:
-			typ = refcodec.TBigList
-		}
-		ds := drawSize(rt, "datasize", len(data))
-		ts := drawSize(rt, "tablesize", len(table))
-		in := refcodec.RawContainer(typ, data, table, ds, ts)
+		in, desc := drawLyingContainer(rt)
 		if rapid.IntRange(0, 3).Draw(rt, "prefix") == 0 {
 			in = append(rapid.SliceOfN(rapid.Byte(), 1, 8).Draw(rt, "prefixbytes"), in...)
 		}
@@ -324,7 +334,7 @@ func TestC02_LyingTables(t *testing.T) {
 		acc, _ := hostile(rt, c02, in, "hand-built container with lying table/sizes")
 		ev.Case(c02, ev.Hash(in), true, "lying-table", fmt.Sprintf("lying-accepted=%v", acc))
 		if ev.WantSample(c02) {
-			ev.Sample(c02, c02case{Input: hexHead(in, 64), Len: len(in), Origin: fmt.Sprintf("lying table: msg=%v big=%v declared data=%d table=%d actual data=%d table=%d", isMsg, big, ds, ts, len(data), len(table))})
+			ev.Sample(c02, c02case{Input: hexHead(in, 64), Len: len(in), Origin: desc})
 		}
 	})
 }
